@@ -312,12 +312,31 @@ def rule_t4(ck, prog, S, model, only=None):
         listed.add(name)
         ck.analysed(f)
         adv = K.ordinal_sites([s["node"] for s in model.sites.get(f.name, []) if s["kind"] == "advance"])
-        if len(adv) != len(exprs):
-            ck.violated("C13-T4", K.site(f, "advances", 0), K.loc(f),
-                        "%s has %d cursor advances, the class table lists %d: the token grammar changed"
-                        % (name, len(adv), len(exprs)))
-            continue
         quotes = [34, 39] if any("Q" in e_ for e_ in exprs) else [None]
+        if len(adv) != len(exprs):
+            # another arrangement of the same recogniser (look-ahead instead of advance-and-undo, merged branches):
+            # the classes over which it advances must still be exactly the listed ones, as sets
+            same = True
+            detail = None
+            for q in quotes:
+                try:
+                    gots_ = {frozenset(char_atoms_set(prog, S, f, node, q, model) or ()) for node in adv}
+                except CS.CannotEvaluate as e:
+                    same, detail = None, str(e)
+                    break
+                wants_ = {frozenset(CS.parse_class(e_, q)) for e_ in exprs}
+                if gots_ != wants_:
+                    same = False
+                    detail = "advances over %s, listed %s" % (sorted(show(set(x)) for x in gots_), sorted(show(set(x)) for x in wants_))
+            stx = K.site(f, "advances", 0)
+            if same:
+                ck.holds("C13-T4", stx, K.loc(f), "%d advances over exactly the %d listed classes" % (len(adv), len({frozenset(CS.parse_class(e_, quotes[0])) for e_ in exprs})))
+            elif same is None:
+                ck.undecided("C13-T4", stx, K.loc(f), "cannot evaluate guards: %s" % detail)
+            else:
+                ck.violated("C13-T4", stx, K.loc(f), "%s has %d cursor advances (class table: %d) and they do not cover the same classes: %s"
+                            % (name, len(adv), len(exprs), detail))
+            continue
         okall = True
         for q in quotes:
             gots = []
@@ -457,7 +476,7 @@ def rule_t5(ck, prog):
                         seq.append(name)
                     elif name and name.startswith(("skip", "scpiLex_")) and name not in ("scpiLex_IsEos",):
                         foreign.add(name)
-                elif e[0] == "store":
+                elif e[0] == "store" and getattr(e[1], "fn", f) is f:      # the function's own advances, not those inside its helpers
                     t = C.store_target(e[1])
                     bm = base_of_member(t) if t is not None and t.k == "MemberExpr" else None
                     if bm and bm[1] == "pos" and (e[1].get("op") in ("++", "+=")):
